@@ -661,7 +661,12 @@ func genEvent(r *vgen.Rng) Event {
 	pt := topoPlain(t, thr)
 	ct := encrypt(r.Bytes(16), pt)
 	h := sha(ct)
-	switch r.Intn(30) {
+	switch r.Intn(33) {
+	case 30, 31, 32:
+		if len(catPool) > 0 {
+			return vgen.Pick(r, catPool) // what counts as a valid topology (catalogue.go)
+		}
+		return mkEvent("genuine", hexBody(ct), h)
 	case 0, 1, 2, 3, 4, 5:
 		return mkEvent("genuine", hexBody(ct), h)
 	case 6:
@@ -985,11 +990,45 @@ func genProvSeq(r *vgen.Rng) Case {
 	return c
 }
 
+// the catalogue items of moderate size, for the random sequences and histories
+var catPool []Event
+
 func gen(r *vgen.Rng, tier string) []Case {
 	var out []Case
-	nseq, nprov, nhist, npseq := 100, 60, 80, 30
+	nseq, nprov, nhist, npseq := 70, 30, 80, 30
 	if tier == "thorough" {
 		nseq, nprov, nhist, npseq = 3000, 1000, 3000, 1000
+	}
+	// what counts as a valid topology: the whole catalogue (catalogue.go) on every run, under the
+	// ciphertext's own hash - through the refresh handler in sequences of five (a valid item is
+	// adopted, the invalid ones after it must leave everything as it is), and through the provider
+	// directly (quick: every third item, at a position that changes with the seed)
+	var catCases []Case
+	{
+		cat := catalogueEvents(r)
+		catPool = nil
+		for _, ev := range cat {
+			if len(ev.BodyHex) <= 4*1500 {
+				catPool = append(catPool, ev)
+			}
+		}
+		for i := 0; i < len(cat); i += 5 {
+			j := i + 5
+			if j > len(cat) {
+				j = len(cat)
+			}
+			catCases = append(catCases, Case{Kind: "refresh", Topo: genTopo(r, 1), Events: append([]Event{}, cat[i:j]...)})
+		}
+		off := r.Intn(3)
+		for i, ev := range cat {
+			if tier == "thorough" || i%3 == off {
+				h := ev.Hashes[0]
+				if i%5 == 4 {
+					h = "" // the start-up call: no hash demanded, validity still decides
+				}
+				catCases = append(catCases, Case{Kind: "prov", Hash: h, Events: []Event{ev}})
+			}
+		}
 	}
 	// gate: every probe against a few topologies (incl. empty and single)
 	topos := []TopoSpec{{Peers: []PeerSpec{}, Threshold: 1}, genTopo(r, 1), genTopo(r, 3), genTopo(r, 5)}
@@ -1070,7 +1109,17 @@ func gen(r *vgen.Rng, tier string) []Case {
 	for i := 0; i < npseq; i++ {
 		out = append(out, genProvSeq(r))
 	}
-	return out
+	// the catalogue cases are spread evenly over the list (the shards are evaluated in parallel)
+	var mixed []Case
+	step := len(out)/len(catCases) + 1
+	for i, c := range out {
+		if i%step == 0 && len(catCases) > 0 {
+			mixed = append(mixed, catCases[0])
+			catCases = catCases[1:]
+		}
+		mixed = append(mixed, c)
+	}
+	return append(mixed, catCases...)
 }
 
 // ---- printing ---------------------------------------------------------------------------------------
@@ -1236,6 +1285,6 @@ func main() {
 			}
 			return false
 		},
-		Rule: "hosts: three real libp2p hosts built by p2p.NewHost on 127.0.0.1 (dialer, target, membership subset of the shared topology), connection result and sender of one broadcast; gate: every probe peer (8 possible members, 2 outsiders) against empty/1/3/5-peer topologies; attr: sender-claiming JSON members (From/from/FROM/... x string/number/null/object) before or after the real fields; prov and refresh: events drawn from 30 classes (genuine; newline / upper-case body; wrong, upper-case, empty, truncated, padded hash; bit flips at 16-byte strides and truncations 0,1,15,16,17,31,32,33,.. with the original or the recomputed hash; another topology's ciphertext; non-hex bodies; garbage with its own hash; invalid thresholds, peer addresses, documents with correct hash; base-0 thresholds; address-less peers; several events per range; no event; fetch failure; duplicated peers), refresh sequences of 1..6 events from a random initial topology, 1 in 12 with an unwritable topology file; histories through ONE provider / handler / store / gate per sequence (half of them starting with the unchecked start-up fetch through that provider): fixed patterns (A, B, A under a foreign hash; A, B, A, B, A under a foreign hash; A, A, B, A under B's hash; rejected events in between; start-up body replayed; two adoptions then fetch failures / unusable bodies announcing earlier hashes) and random histories whose later events re-serve earlier bodies (foreign hash, another event's announced hash, another body's hash, own hash, empty hash, right-then-wrong announcements), re-announce an accepted hash with a new valid body, re-encrypt an earlier topology, change one digit of an earlier body, fail the fetch or serve an unusable body while announcing an earlier hash; provseq: 2..6 direct NetworkTopology calls through one provider over the same event kinds with the hash own / foreign / earlier / empty; 15 wrong spellings of the right hash (cut, padded, 0x / 0X prefixed, bare 0x, upper case, doubled, shifted, newline, scheme prefix, zeros) on a genuine body, through the handler and the provider; distinct = distinct input JSON; non-trivial = gate on a non-empty topology, a claimed sender, a body that decrypts to a valid topology or panics",
+		Rule: "hosts: three real libp2p hosts built by p2p.NewHost on 127.0.0.1 (dialer, target, membership subset of the shared topology), connection result and sender of one broadcast; gate: every probe peer (8 possible members, 2 outsiders) against empty/1/3/5-peer topologies; attr: sender-claiming JSON members (From/from/FROM/... x string/number/null/object) before or after the real fields; catalogue (every run, complete): about 270 plaintexts under the ciphertext's own hash whose validity the reference parser decides - threshold texts around 0 / 2^31 / 2^63 / 2^64 in decimal, hex, octal, binary, with signs, underscores, blanks, exponents, non-ASCII digits, as JSON number / null / bool / array / object, missing, duplicated, differently-cased or escaped key; threshold above / equal to the number of peers; peer lists empty / null / missing / of wrong JSON type, 25 malformed multiaddrs first or last in the list, null / {} / wrongly typed entries, duplicated and differently-cased members, duplicated peers, 24 peers; extra members, other member order, wrapped / nested / truncated / single-quoted documents, deep nesting (300 levels), 2 KB members; 17 kinds of bytes before and 30 after the document (blanks incl. 1 KB, BOM, NUL, \v, \f, NBSP, braces, commas, comments, JSON values, invalid UTF-8), PKCS#7-style padding of 1..16 bytes, zero padding, a second document (equal, different, invalid first / second, unterminated) - through the refresh handler in sequences of five and through the provider (quick: every third; every fifth of those with the empty start-up hash); prov and refresh: events drawn from 31 classes (a catalogue item; genuine; newline / upper-case body; wrong, upper-case, empty, truncated, padded hash; bit flips at 16-byte strides and truncations 0,1,15,16,17,31,32,33,.. with the original or the recomputed hash; another topology's ciphertext; non-hex bodies; garbage with its own hash; invalid thresholds, peer addresses, documents with correct hash; base-0 thresholds; address-less peers; several events per range; no event; fetch failure; duplicated peers), refresh sequences of 1..6 events from a random initial topology, 1 in 12 with an unwritable topology file; histories through ONE provider / handler / store / gate per sequence (half of them starting with the unchecked start-up fetch through that provider): fixed patterns (A, B, A under a foreign hash; A, B, A, B, A under a foreign hash; A, A, B, A under B's hash; rejected events in between; start-up body replayed; two adoptions then fetch failures / unusable bodies announcing earlier hashes) and random histories whose later events re-serve earlier bodies (foreign hash, another event's announced hash, another body's hash, own hash, empty hash, right-then-wrong announcements), re-announce an accepted hash with a new valid body, re-encrypt an earlier topology, change one digit of an earlier body, fail the fetch or serve an unusable body while announcing an earlier hash; provseq: 2..6 direct NetworkTopology calls through one provider over the same event kinds with the hash own / foreign / earlier / empty; 15 wrong spellings of the right hash (cut, padded, 0x / 0X prefixed, bare 0x, upper case, doubled, shifted, newline, scheme prefix, zeros) on a genuine body, through the handler and the provider; distinct = distinct input JSON; non-trivial = gate on a non-empty topology, a claimed sender, a body that decrypts to a valid topology or panics",
 	})
 }
